@@ -5,7 +5,12 @@ ID=$1; NAME=$2; PROPS=$3
 S=/tmp/seed/$ID; D=/verif/seeded/$NAME
 mkdir -p $D
 cp $S/patch.diff $S/demo.py $D/ 2>/dev/null; cp $S/notes.md $D/notes.md 2>/dev/null
-( cd $S && timeout 900 /venv/bin/python demo.py >/tmp/demo_mut.log 2>&1 ); rc_mut=$?
+# the demo runs in FRESH worktrees (patch applied / not applied), never in the seeder's own tree: its state is not trusted
+mkdir -p /tmp/mut
+WM=/tmp/mut/mut$$; git -C /repo worktree add -q --detach $WM HEAD; cp $S/demo.py $WM/
+( cd $WM && git apply $D/patch.diff ) || { echo "patch does not apply"; git -C /repo worktree remove --force $WM; exit 2; }
+( cd $WM && timeout 900 /venv/bin/python demo.py >/tmp/demo_mut.log 2>&1 ); rc_mut=$?
+git -C /repo worktree remove --force $WM
 W=/tmp/mut/clean$$; git -C /repo worktree add -q --detach $W HEAD; cp $S/demo.py $W/
 ( cd $W && timeout 900 /venv/bin/python demo.py >/tmp/demo_clean.log 2>&1 ); rc_clean=$?
 git -C /repo worktree remove --force $W
